@@ -220,7 +220,7 @@ func cmdClaim(args []string) {
 	os.MkdirAll(filepath.Join(verifRoot, "claims"), 0o755)
 	for _, p := range props {
 		// claim only what discharges comfortably inside the quick budget
-		opts := solveOpts{dir: dir, quickT: 3, slowT: 8, workers: 16}
+		opts := solveOpts{dir: dir, quickT: 3, slowT: 8, workers: 16, stability: true}
 		pr := runProperty(eng, p, opts)
 		var cl []string
 		nskip := 0
@@ -436,7 +436,7 @@ func writeEvidence(path, prop, tier string, seed int, pr *propRun, claims *claim
 					byBackend[o.Backend]++
 				}
 			}
-			fns = append(fns, map[string]any{"function": fr.Key, "obligations": len(fr.Obls), "discharged": nOK, "vacuity_guard": fr.Vacuity, "seconds": round2(fr.Secs), "outside_subset": fr.Unsupported})
+			fns = append(fns, map[string]any{"function": fr.Key, "obligations": len(fr.Obls), "discharged": nOK, "vacuity_guard": fr.Vacuity, "reachable_return_sites": fr.ReachableReturns, "seconds": round2(fr.Secs), "outside_subset": fr.Unsupported})
 			for _, a := range fr.Assumed {
 				assumedSet[a] = true
 			}
